@@ -8,7 +8,7 @@ strictly decoded by the reference codec and compared with the API call.
 
 import itertools
 
-from .. import common, drivers, histories, refber as rb
+from .. import common, drivers, histories, loomx, refber as rb
 from ..drivers import Cfg
 from ..reqoracle import Call, SessionModel, check_request
 
@@ -321,6 +321,10 @@ def run(tier):
     slow_cases = [c for c in cases if c["kind"] == "public"]
     common.run_cases(rec, work, fast_cases, chunk=400)
     common.run_cases(rec, work, slow_cases, chunk=10)
+    # pool exclusivity / reset-on-acquire under all interleavings of 2-3 threads (secondary sub-check)
+    loomx.explore(rec, 2, 2, 3)
+    if tier == "thorough":
+        loomx.explore(rec, 3, 2, 2)
     n = rec.counters["cases"]
     return rec.finish(
         evaluations=rec.counters["datagrams"],
